@@ -109,13 +109,17 @@ pub struct Direct<G: Cv> {
     /// [party][i] for G and H taken from a directly constructed object
     pub g: Vec<Vec<G>>,
     pub h: Vec<Vec<G>>,
+    /// its compressed serialization
+    pub bytes: Vec<u8>,
 }
 fn direct<G: Cv>(cap: usize, parties: usize) -> Direct<G> {
     let d = BulletproofGens::<G>::new(cap, parties);
+    let mut bytes = vec![];
+    d.serialize_compressed(&mut bytes).expect("serialize");
     if cap == 0 {
-        return Direct { g: vec![vec![]; parties], h: vec![vec![]; parties] };
+        return Direct { g: vec![vec![]; parties], h: vec![vec![]; parties], bytes };
     }
-    Direct { g: (0..parties).map(|j| party_vec(&d, j, cap, false)).collect(), h: (0..parties).map(|j| party_vec(&d, j, cap, true)).collect() }
+    Direct { bytes, g: (0..parties).map(|j| party_vec(&d, j, cap, false)).collect(), h: (0..parties).map(|j| party_vec(&d, j, cap, true)).collect() }
 }
 
 /// Check one state. Returns (views checked, problems as (key, expected, observed)).
@@ -140,6 +144,22 @@ pub fn check_state<G: Cv>(h: &[u8], parties: usize, directs: &BTreeMap<(usize, u
         return (0, bad);
     }
     let d = &directs[&(cap, parties)];
+    // (1b) the serialized form is a function of (curve, capacity, parties) alone: it equals that
+    // of the directly constructed object (C18 compares the bytes with the reference revision's)
+    views += 1;
+    match guarded(|| {
+        let mut bytes = vec![];
+        g.serialize_compressed(&mut bytes).map(|_| bytes)
+    }) {
+        Ok(Ok(bytes)) => {
+            let want = &d.bytes;
+            if &bytes != want {
+                bad.push((json!({"curve": G::NAME, "parties": parties, "history": hist_name(h), "view": "serialized form"}), format!("the {} bytes a directly constructed new({}, {}) serializes to", want.len(), cap, parties), format!("{} bytes, first difference at offset {}", bytes.len(), bytes.iter().zip(want.iter()).position(|(a, b)| a != b).unwrap_or(bytes.len().min(want.len())))));
+            }
+        }
+        Ok(Err(e)) => bad.push((base.clone(), "serializes".into(), format!("{:?}", e))),
+        Err(m) => bad.push((base.clone(), "serializes".into(), format!("panicked: {}", m))),
+    }
     // (2) every (n, m) view lists exactly the first n generators of the first m parties
     for n in 0..=cap {
         for m in 0..=parties {
@@ -166,6 +186,98 @@ pub fn check_state<G: Cv>(h: &[u8], parties: usize, directs: &BTreeMap<(usize, u
         }
     }
     (views, bad)
+}
+
+/// Serialized form of a `BulletproofGens` in the reference revision (arkworks canonical,
+/// compressed): gens_capacity, party_capacity as u64 LE, then G_vec and H_vec, each a u64 LE party
+/// count followed per party by a u64 LE length and the compressed points.
+pub fn layout_model<G: Cv>(cap: usize, parties: usize, g: &[Vec<G>], h: &[Vec<G>]) -> Vec<u8> {
+    let mut out = vec![];
+    out.extend_from_slice(&(cap as u64).to_le_bytes());
+    out.extend_from_slice(&(parties as u64).to_le_bytes());
+    for side in [g, h] {
+        out.extend_from_slice(&(side.len() as u64).to_le_bytes());
+        for party in side {
+            out.extend_from_slice(&(party.len() as u64).to_le_bytes());
+            for p in party {
+                out.extend_from_slice(&pt_bytes(p));
+            }
+        }
+    }
+    out
+}
+
+fn split<G: Cv>(g: &BulletproofGens<G>, cap: usize, parties: usize, h: bool) -> Vec<Vec<G>> {
+    let all: Vec<G> = if h { g.H(cap, parties).cloned().collect() } else { g.G(cap, parties).cloned().collect() };
+    if cap == 0 {
+        return vec![vec![]; parties];
+    }
+    all.chunks(cap).map(|c| c.to_vec()).collect()
+}
+
+/// Serialized generator objects recorded from the pinned revision (`fixtures/gens_blobs_unpatched.json`):
+/// the current tree must produce the same bytes (`exact`, C18's business), and must decode the recorded bytes into an
+/// object with the recorded capacities and the same views as a direct construction.
+pub fn blob_checks<G: Cv>(blobs: &Value, exact: bool) -> (u64, Vec<(Value, String, String)>) {
+    let mut bad = vec![];
+    let mut n = 0u64;
+    let f = match blobs[G::NAME].as_object() {
+        Some(f) => f,
+        None => {
+            bad.push((json!({"curve": G::NAME, "fixture": "gens blobs"}), "present".into(), "missing".into()));
+            return (0, bad);
+        }
+    };
+    for (name, hexv) in f {
+        n += 1;
+        let key = json!({"curve": G::NAME, "fixture": format!("serialized generators {}", name)});
+        let want = hex::decode(hexv.as_str().unwrap_or("")).unwrap_or_default();
+        let (shape, inc) = match name.split_once("+inc") {
+            Some((a, b)) => (a, b.parse::<usize>().ok()),
+            None => (name.as_str(), None),
+        };
+        let (c, p) = shape.split_once('x').map(|(a, b)| (a.parse::<usize>().unwrap(), b.parse::<usize>().unwrap())).unwrap();
+        let cap = inc.map(|i| i.max(c)).unwrap_or(c);
+        let r = guarded(|| {
+            let mut g = BulletproofGens::<G>::new(c, p);
+            if let Some(i) = inc {
+                g.increase_capacity(i);
+            }
+            let mut bytes = vec![];
+            g.serialize_compressed(&mut bytes).map_err(|e| format!("{:?}", e))?;
+            if exact && (bytes != want || bytes != layout_model(cap, p, &split::<G>(&g, cap, p, false), &split::<G>(&g, cap, p, true))) {
+                return Err(format!("{} bytes, first difference at offset {}", bytes.len(), bytes.iter().zip(want.iter()).position(|(a, b)| a != b).unwrap_or(bytes.len().min(want.len()))));
+            }
+            let back = BulletproofGens::<G>::deserialize_compressed(&want[..]).map_err(|e| format!("recorded bytes do not decode: {:?}", e))?;
+            if back.gens_capacity != cap || back.party_capacity != p {
+                return Err(format!("recorded bytes decode to gens_capacity {} party_capacity {}", back.gens_capacity, back.party_capacity));
+            }
+            let gg: Vec<G> = back.G(cap, p).cloned().collect();
+            let hh: Vec<G> = back.H(cap, p).cloned().collect();
+            let wg: Vec<G> = g.G(cap, p).cloned().collect();
+            let wh: Vec<G> = g.H(cap, p).cloned().collect();
+            if gg != wg || hh != wh || gg.len() != cap * p {
+                return Err("recorded bytes decode to different generator views".to_string());
+            }
+            Ok(())
+        });
+        match r {
+            Ok(Ok(())) => {}
+            Ok(Err(e)) => bad.push((key, format!("the {} bytes recorded from the reference revision, decoding to capacity {} x {} parties", want.len(), cap, p), e)),
+            Err(m) => bad.push((key, "no panic".into(), format!("panicked: {}", m))),
+        }
+    }
+    (n, bad)
+}
+pub fn load_blobs() -> Value {
+    let p = verif_root().join("fixtures").join("gens_blobs_unpatched.json");
+    match std::fs::read_to_string(&p).ok().and_then(|s| serde_json::from_str(&s).ok()) {
+        Some(v) => v,
+        None => {
+            eprintln!("machinery: fixtures/gens_blobs_unpatched.json missing or invalid");
+            std::process::exit(2);
+        }
+    }
 }
 
 fn digest<G: Cv>(pts: &[G]) -> String {
@@ -345,6 +457,7 @@ pub fn load_fixtures() -> Value {
 pub fn main(o: &Opts) -> i32 {
     let mut rep = Report::new("C12", o.tier.name(), o.seed, "model_checking");
     let fixtures = load_fixtures();
+    let blobs = load_blobs();
     let (depth, big) = match o.tier {
         Tier::Quick => (3, 512),
         Tier::Thorough => (4, 4096),
@@ -353,7 +466,7 @@ pub fn main(o: &Opts) -> i32 {
         let v: Value = serde_json::from_str(&std::fs::read_to_string(path).unwrap()).unwrap();
         println!("replay of C12 cases re-runs the quick check; case was: {}", v["case"]);
     }
-    rep.bounds = json!({"actions": ["new(c)/inc(c) for c in {0,1,2,3,4,7,8,16,33}", "serialize->deserialize"], "history_depth": depth, "parties": [1, 2, 3], "views": "(n,m) in [0,cap] x [0,parties], G and H", "large_instance": {"cap": big, "parties": 4}, "many_parties_instance": {"cap": 2, "parties": if o.tier == Tier::Quick { MANY_QUICK } else { MANY_THOROUGH }}});
+    rep.bounds = json!({"actions": ["new(c)/inc(c) for c in {0,1,2,3,4,7,8,16,33}", "serialize->deserialize"], "serialized_form": "every state's bytes equal the reference layout rebuilt from a direct construction; 8 objects per curve recorded from the pinned revision compared byte for byte and decoded", "history_depth": depth, "parties": [1, 2, 3], "views": "(n,m) in [0,cap] x [0,parties], G and H", "large_instance": {"cap": big, "parties": 4}, "many_parties_instance": {"cap": 2, "parties": if o.tier == Tier::Quick { MANY_QUICK } else { MANY_THOROUGH }}});
     rep.curves = CURVES.iter().map(|s| s.to_string()).collect();
     // stateright: enumerate the history machine once (it is curve independent)
     let m = GensMachine { depth };
@@ -403,6 +516,9 @@ pub fn main(o: &Opts) -> i32 {
                 }
             }
             let (n, b) = content_checks::<G>(big, 4, Some(&fixtures));
+            content_n += n;
+            bad.extend(b);
+            let (n, b) = blob_checks::<G>(&blobs, false);
             content_n += n;
             bad.extend(b);
             let (n, b) = many_parties_check::<G>(if o.tier == Tier::Quick { MANY_QUICK } else { MANY_THOROUGH }, Some(&fixtures));
